@@ -26,7 +26,8 @@ REVIEWED = [
     (r"^radicle_crypto::Signature$", "Display/FromStr are inverse text encodings of the signature's 64 bytes"),
     (r"^radicle::identity::doc::id::RepoId$", "urn()/from_urn are inverse text encodings of the 20-byte object id"),
     (r"^radicle::node::timestamp::Timestamp$", "the writer binds i64::try_from(u64) and returns an error (no write) above i64::MAX, so stored integers are non-negative; the parser rejects only negative integers"),
-    (r"^radicle::node::UserAgent$", "UserAgent values exist only through UserAgent::from_str / Default (constructor discipline, C21), and the writer stores that validated text"),
+    (r"^radicle::node::UserAgent$", "UserAgent values exist only through UserAgent::from_str / Default (constructor discipline, C21), from_str admits only ASCII graphic "
+                                    "characters in every segment (verified below: text with a NUL comes back truncated from sqlite), and the writer stores that validated text"),
     (r"^radicle_node::service::gossip::store::GossipType$", "Display writes exactly the three keywords the parser accepts; the value is derived locally from the message variant, not chosen by a peer"),
     (r"^radicle::node::policy::(Policy|Scope)$", "Display prints exactly the keywords FromStr accepts (serde/strum-style keyword enum); values are local configuration, not peer data"),
 ]
@@ -117,9 +118,49 @@ def classify(db, ty):
             return "partial", "the writer binds %s, which the parser does not accept" % sorted(w - accepted)
     for rx_, why in REVIEWED:
         if re.search(rx_, ty):
+            if ty == "radicle::node::UserAgent" and not user_agent_charset(db):
+                return "partial", ("UserAgent::from_str has a segment form whose characters are not restricted to ASCII graphic ones: a user agent with a "
+                                   "control character (NUL) is stored and does not read back")
             return "reviewed", why
     return "partial", "`TryFrom<&Value> for %s` can reject stored values (%s) and no reviewed argument says that every value the writer stores re-parses" % (
         ty, p["file"] + ":" + str(p["line"]))
+
+
+def user_agent_charset(db):
+    """Every segment form accepted by UserAgent::from_str is behind `is_ascii_graphic` on all its characters: in the
+    closure that classifies a segment, no path returns `true` (or a conjunction) without a call of an `all(is_ascii_graphic..)`
+    test on the part it accepts.  Structural approximation: the segment closure has no constant-true return, and every
+    `Iterator::all` predicate closure beneath it calls `char::is_ascii_graphic` combined with `&&` (not `||`) with the
+    reserved-character test."""
+    fs = db.find(r"^<radicle::node::UserAgent as core::str::traits::FromStr>::from_str")
+    if not fs:
+        return False
+    root = [f for f in fs if "closure" not in f["key"]]
+    clos = [f for f in fs if "closure" in f["key"]]
+    if not root or not clos:
+        return False
+    from . import rules as _rules
+    # the per-segment closure: the one that calls split_once
+    seg = [f for f in clos if any((c.get("n") or "").endswith("str::split_once") for _, _, c in db.calls(f))]
+    if len(seg) != 1:
+        return False
+    for bb, kind, val in _rules.ret_defs(seg[0]):
+        if kind == "const" and val == 1:
+            return False          # a segment accepted without looking at its characters
+    # character predicates: closures calling is_ascii_graphic must not be disjunctions that let other characters through
+    preds = [f for f in clos if any((c.get("n") or "").endswith("char::methods::is_ascii_graphic") for _, _, c in db.calls(f))]
+    if not preds:
+        return False
+    for f in preds:
+        for p, facts, ret in pathsum.summaries(db, f, 64) or []:
+            ag = [x for x in facts if x[0] == "bool" and "is_ascii_graphic" in nshow(x[1])]
+            if ag and ag[0][2] is False:
+                # not ASCII graphic: must be rejected
+                if pathsum.const_value(ret) != 0:
+                    return False
+    # every accepted part is tested: the number of `Iterator::all` calls under the segment closure covers client, version and bare name
+    alls = sum(1 for f in [seg[0]] for _, _, c in db.calls(f) if (c.get("n") or "").endswith("Iterator::all"))
+    return alls >= 3
 
 
 def guard(ctx, fn, bb):
